@@ -101,6 +101,27 @@ func newGvar(table tables.Gvar, glyf tables.Glyf) (gvar, error) {
 	return out, nil
 }
 
+// hasAxisCount returns true if all the tuples of the table have
+// the given length, which must be the number of axis in the 'fvar' table.
+func (gv gvar) hasAxisCount(axisCount int) bool {
+	for _, tuple := range gv.sharedTuples {
+		if len(tuple) != axisCount {
+			return false
+		}
+	}
+	for _, tvs := range gv.variations {
+		for _, tv := range tvs {
+			// peak and intermediate tuples are optional
+			for _, tuple := range [...]tables.Tuple{tv.PeakTuple, tv.IntermediateTuples[0], tv.IntermediateTuples[1]} {
+				if tuple.Values != nil && len(tuple.Values) != axisCount {
+					return false
+				}
+			}
+		}
+	}
+	return true
+}
+
 type tupleVariation struct {
 	tables.TupleVariationHeader
 
